@@ -250,7 +250,9 @@ SCAL = st.one_of(st.none(), st.booleans(), st.sampled_from([0, 1, 2, 1.5, "", "a
 
 @st.composite
 def cases(draw):
-    doc = draw(D.containers(name_st=st.sampled_from(["a", "b", "c", "0", "1"]), scalars=SCAL, max_leaves=10))
+    names = st.one_of(st.sampled_from(["a", "b", "c", "0", "1"]), st.sampled_from(["a", "b", "c", "0", "1"]),
+                      st.sampled_from(["a'b", "a\\b", "\u0001", "q\"", "\n", "\u00e9", "'", "\\", "-1", "~", "/"]))
+    doc = draw(D.containers(name_st=names, scalars=SCAL, max_leaves=10))
     return doc, draw(st.integers(0, 2**32 - 1))
 
 
@@ -293,8 +295,8 @@ def t_random(seed, n):
 
 # ------------------------------------------------------------------ exhaustive matrix
 
-VALUES = {"object": {"a": 1, "0": "s"}, "array": [1, "s", [2]], "string": "xyz", "number": 7, "boolean": True, "null": None}
-SELS = {"name": "['a']", "index": "[0]", "neg-index": "[-1]", "slice": "[0:2]", "rslice": "[::-1]", "wild": "[*]", "keys": "[~]",
+VALUES = {"object": {"a": 1, "0": "s", "q'\\\u0001": [1]}, "array": [1, "s", [2]], "string": "xyz", "number": 7, "boolean": True, "null": None}
+SELS = {"name": "['a']", "nasty-name": "['q\\'\\\\\\u0001']", "index": "[0]", "neg-index": "[-1]", "slice": "[0:2]", "rslice": "[::-1]", "wild": "[*]", "keys": "[~]",
         "list": "['a',0,*]", "filter": "[?@]", "filter-cmp": "[?@ == 1]", "filter-len": "[?length(@) > 0]", "filter-key": "[?# == 0]"}
 
 
